@@ -302,6 +302,9 @@ func newton_min(
       } else {
         t1.VmulS(t1, alpha)
         x2.VsubV(x1, t1)
+        if Vequals(x1, x2) {
+          return x1, fmt.Errorf("line search failed")
+        }
       }
     } else {
       for {
